@@ -65,6 +65,13 @@ def run(ctx):
                 r.fail(rule, 'username:Ok', 'user name token accepted without: ' + ', '.join(missing), loc=b.loc)
             else:
                 r.ok(rule, 'username:Ok', 'Ok only after all six user-name checks', loc=b.loc)
+        # the authenticated id must come from the endpoint's own user list
+        for bb, si, pl in oks:
+            src = loop_source_of(b, F, F.sym_operand(b.stmts(bb)[si][2][4][0]))
+            if src and 'endpoint' in src and 'user_token_ids' in src:
+                r.ok(rule, 'username:candidates', 'candidate users are taken from endpoint.user_token_ids', detail=src, loc=b.loc)
+            else:
+                r.fail(rule, 'username:candidates', 'the authenticated user id is not drawn from the endpoint\'s user_token_ids (iterates %s)' % src, loc=b.loc)
         # definitions of `valid`
         vloc = b.local_by_name('valid')
         defs = []
@@ -135,6 +142,11 @@ def run(ctx):
             for bb, si, pl in result_ctor_sites(cb, 'Ok'):
                 t = lits_txt(cb, Fc.literals_at(bb, si))
                 done = True
+                src = loop_source_of(cb, Fc, Fc.sym_operand(cb.stmts(bb)[si][2][4][0]))
+                if not (src and 'endpoint' in src and 'user_token_ids' in src):
+                    r.fail(rule, 'x509:candidates', 'the authenticated X.509 user id is not drawn from the endpoint\'s user_token_ids (iterates %s)' % src, loc=cb.loc)
+                else:
+                    r.ok(rule, 'x509:candidates', 'candidate users are taken from endpoint.user_token_ids', loc=cb.loc)
                 if any('thumbprint' in x and (' eq ' in x or ('eq(' in x and x.endswith('== True'))) for x in t):
                     r.ok(rule, 'x509:thumbprint', 'Ok(user) only when the certificate thumbprint equals a configured one', loc=cb.loc)
                 else:
@@ -171,4 +183,4 @@ def run(ctx):
             r.ok(rule, 'fresh-nonce', 'a fresh random nonce is stored on successful activation', loc=sn[0].loc)
         else:
             r.fail(rule, 'fresh-nonce', 'activation does not store a fresh random nonce (an old encrypted password could be replayed)', loc=b.loc)
-    r.floor('C20', 'obligations', len(r.obls), 10)
+    r.floor('C20', 'obligations', len(r.obls), 12)
